@@ -24,7 +24,10 @@ UNIT = Unit(
                      (re.compile(r'(\b[a-z_]\w*)\.starts_with\((\b[a-z_]\w*)\)'), r"str_starts_with(\1, \2)", "*"),
                      (re.compile(r'(\b[a-z_]\w*) == (\b[a-z_]\w*\b|"[^"]*")'), r"str_eq(\1, \2)", "*")],
            contract="ensures r == name_is_local(current_package@, name@),"),
-        Fn(file=T, name="is_local_nominal_type", ret="r",
+        Fn(file=T, name="is_local_nominal_type", ret="r", rules=["attrs", ("strip", "tast::"), "iter_any"],
+           # should the body ask `xs.iter().any(..)` (it does not on the pinned tree), the loop gets the weakest annotation: nothing is known about its answer
+           loop_fn=lambda k, header, kw: (lambda mt: (f"invariant_except_break !__r{mt.group(2)},\ninvariant {mt.group(1)} <= {mt.group(3)}.len(),\n decreases {mt.group(3)}.len() - {mt.group(1)},") if mt else None)(
+               re.search(r"while\s+(__i(\d+))\s*<\s*(\w+)\.len\(\)", header)),
            rewrites=[("is_local_name(current_package, name)", "is_local_name(current_package, string_as_str(name))")],
            contract="ensures r == nominal_is_local(current_package@, *ty),\n decreases *ty,"),
         Fn(file=T, name="define_trait_impl", rename="trait_impl_gates", ret="r", rules=["attrs", ("strip", "tast::"), "fmtmsg"],
